@@ -215,14 +215,17 @@ CLAIMED["C15"] = (
 CLAIMED["C07"] = (
     "Kernel-checked theorems on the data plane: for EVERY value list (any length, missing values anywhere) the reader applied "
     "to the point cache the writer emits returns exactly the list supplied and the announced count is its length; the idx / "
-    "order value given to a cloned series is larger than every value in use.  Tied to the code by exact comparison of the "
+    "order value given to a cloned series is larger than every value in use; for EVERY category forest of uniform depth "
+    "(any branching, any number of leaves) the flattened labels the reader derives from the levels the writer emits - "
+    "parent = last entry before the first whose idx exceeds the leaf's - are exactly the root-to-leaf label paths "
+    "(flattened_spec, by induction over levels and forests).  Tied to the code by exact comparison of the "
     "value caches with the model for every writable chart type (probed) x seeded data x replace_data sequences, and by "
     "oracles on the real output: chart part validated with lxml against dml-chart.xsd (after markup-compatibility "
     "preprocessing), names / values / categories / flattened hierarchy labels against the data supplied (root-to-leaf paths "
     "of the supplied tree), idx/order uniqueness, formatting of surviving series kept by replace_data.",
-    "Category hierarchies (levels/idx vs the reader's parentage rule) and XML validity are oracle-checked, not proved; three "
+    "XML validity is oracle-checked, not proved; three "
     "genuine template defects are listed as known findings (negative axId values, c:smooth in radar series, single-series pie).",
-    "Lean 4 proof (cache round trip by induction) + correspondence + XSD/read-back oracles",
+    "Lean 4 proof (cache round trip, hierarchy flattening by induction) + correspondence + XSD/read-back oracles",
     "DESIGN.md §5 C07",
 )
 CLAIMED["C08"] = (
